@@ -22,7 +22,9 @@ def run(chk, facts, tier):
         "Static decision of the traversal structure of the entity-manifest analysis on the current MIR: (TRAVERSE) with variant-qualified label provenance every child of every "
         "ExprKind variant reaches a recursive call of entity_manifest_from_expr and the child's result flows into the returned analysis result; (REQUEST) GetAttr/HasAttr pass "
         "their attribute to get_or_has_attr, `in` passes the right operand's paths to with_ancestors_required on the left operand, and ==/in/contains* apply full_type_required to "
-        "both operands. Declines that the resulting slice suffices for authorization (relates the analysis to evaluator semantics).")
+        "both operands; (UNION) merging access tries is total: every request-carrying field of the other trie is merged on every path and every map entry is inserted or unioned; "
+        "(LOAD) load_entities sends every computed request to the loader (the work list is never filtered), merges an entity loaded twice, schedules the remaining requests of every "
+        "loaded entity and computes an ancestors request for every requested entity. Declines that the resulting slice suffices for authorization (relates the analysis to evaluator semantics).")
     chk.assumptions = ["label provenance is flow-insensitive per function (variant-qualified seeds)", "MIR at mir-opt-level=0 reflects source control flow"]
     rule = "C17.TRAVERSE"
     f = get_fn(chk, facts, rule, EM + "entity_manifest_from_expr")
@@ -51,3 +53,5 @@ def run(chk, facts, tier):
     ft = [(L.operand_labels(t[2][0]), t[1].get("l")) for b, t in f.calls() if callee(t).endswith("::full_type_required")]
     both = any("BinaryApp.arg1" in a for a, _ in ft) and any("BinaryApp.arg2" in a and "BinaryApp.arg1" not in a for a, _ in ft)
     chk.ob(rule, "equality:full-type", both, "equality-like operators require the full type of both operands (%d full_type_required sites): %s" % (len(ft), both), where=f.where(), fn=f.name)
+    from rules import c17_slice
+    c17_slice.check(chk, facts)
